@@ -233,17 +233,30 @@ class Inc:
                 body = ['#ifndef %s' % g, '#define %s' % g, '#if 1', tag + '_in;', '#endif'] + inner + ['#endif']
             self.feat.add('hdr:' + style)
             files['%s/%s' % (dr, nm)] = '\n'.join(body) + '\n'
-        # #include_next: only as the first include of a header that is itself only reached through <...> (D31 otherwise)
+        # #include_next chains: the same name in 2-3 search directories, each copy continuing with #include_next, optionally after
+        # another #include (which must not disturb where the search resumes), optionally entered through a copy next to main.c
+        self.has_next = False
+        self.next_top = False
         if ch.int(0, 3) == 0 and len(il) + len(al) >= 2:
             order = il + al
-            k = ch.int(0, len(order) - 2)
-            files['%s/hq_n.h' % order[k]] = 'N_first;\n#include_next <hq_n.h>\nN_first_end;\n'
-            files['%s/hq_n.h' % order[ch.int(k + 1, len(order) - 1)]] = 'N_second;\n'
+            ks = sorted(ch.sample(list(range(len(order))), ch.int(2, min(3, len(order)))))
+            for idx, k in enumerate(ks):
+                body = ['N%d;' % idx]
+                if idx < len(ks) - 1:
+                    if ch.bool():
+                        body.append('#include ' + ch.choice(['"%s"', '<%s>']) % ch.choice(NAMES))
+                        self.feat.add('include-before-include_next')
+                    body.append('#include_next ' + ch.choice(['<hq_n.h>', '"hq_n.h"']))
+                    body.append('N%d_end;' % idx)
+                files['%s/hq_n.h' % order[k]] = '\n'.join(body) + '\n'
+            if ch.int(0, 3) == 0:
+                files['hq_n.h'] = 'N_top;\n#include_next <hq_n.h>\nN_top_end;\n'
+                self.next_top = True
+                self.feat.add('include_next-from-includer-dir')
             self.feat.add('include_next')
+            if len(ks) == 3:
+                self.feat.add('include_next-chain-of-3')
             self.has_next = True
-        else:
-            self.has_next = False
-        self.excl['D31'] = self.excl.get('D31', 0) + (0 if self.has_next else 0)
         main = []
         for _ in range(ch.int(2, 6)):
             nm = ch.choice(NAMES)
@@ -254,7 +267,7 @@ class Inc:
                 self.feat.add('guard-undef-between')
             main.append('MAIN_%d;' % len(main))
         if self.has_next:
-            main.insert(ch.int(0, len(main)), '#include <hq_n.h>')
+            main.insert(ch.int(0, len(main)), '#include "hq_n.h"' if (self.next_top or ch.int(0, 3) == 0) else '#include <hq_n.h>')
         main.append('#ifdef DX\nDX_is DX;\n#endif')
         if ch.int(0, 3) == 0:
             files['pre.h'] = 'PRE_included;\n#define FROM_PRE 1\n'
@@ -287,13 +300,12 @@ class C10:
             'expected value; plain `#if E`, `(E) == V`, `(E) != V`), `defined` in 5 spellings, undefined identifiers, object-like macros holding sub-expressions, trailing tokens/comments on '
             '#else/#endif/#ifdef lines, skipped groups filled with invalid directives, #error, missing includes, never-evaluated #elif and division by zero; '
             'every group emits a marker and the model predicts the marker sequence; (b) include graphs over 7 directories (includer dir, 3 -I, 2 -idirafter, sub) with same-named '
-            'headers, 10 guard shapes incl. #pragma once, nested "..."/<...>/macro-expanded includes, #include_next, guards #undef-ed between inclusions, -D/-U histories, -include, '
+            'headers, 10 guard shapes incl. #pragma once, nested "..."/<...>/macro-expanded includes, #include_next chains over 2-3 directories (also after another #include and from a copy next to the includer), guards #undef-ed between inclusions, -D/-U histories, -include, '
             'option order permuted. Oracle: marker sequence of chibicc -E == gcc == clang (== model for (a)). non-trivial = nesting>=2, boundary-valued expression, >=2 candidate '
             'directories for a name or a header included twice; distinct by program text / file tree hash.')
     assumptions = ['gcc/clang preprocessors run with the equivalent search path define plain textual inclusion semantics',
-                   'D31 (#include_next keeps one global search index) is recorded: #include_next is generated only as the first include of a header reached through <...>',
                    'D66-class path identity and -idirafter semantics as repaired in /repo']
-    excl = {'D31': 0}
+    excl = {}
 
     def budget(self, tier):
         return 1500 if tier == 'quick' else 18000
